@@ -73,49 +73,41 @@ def sym_writes(it, ip):
 
 
 def r2_from_partition(ctx):
+    """new_id and old_id are defined element by element:  new_id[s] = block_id(s) - 1 for every state s < size,
+    old_id[b - 1] = pick_element(b) for every block 1 <= b < num_blocks.  Checked on the closed form of the returned
+    vectors (loopsum: a push loop, an index-write loop over a pre-sized vector and map().collect() all denote
+    map(range, k, body)), so the way the two loops are written does not matter."""
     p = A(0)
     for cfg in ('dev', 'rel'):
         ctx.assumptions.add('block ids and state ids fit in u32/usize casts used by the minimiser (u32 <-> usize casts are lossless)')
         ctx.assumptions.add('Partition::block_id of an element is >= 1 (block 0 is the empty block)')
-        bhy = lambda st, goal: [le(I(1), T.typed(calllog.call_term(c), 'u32')) for c in st.calls if c[0] == PART + 'block_id']
-        log = calllog.run(ctx, cfg, SM + 'from_partition', exact_casts=[('u32', 'usize'), ('usize', 'u32')], hyps=bhy)
-        ip, fn = log.ip, log.fn
-        roles = set()
-        for it in log.iterations:
-            ws = sym_writes(it, ip)
-            bid = it.named('Partition::block_id')
-            pick = it.named('Partition::pick_element')
-            ok = len(ws) == 1
-            role = 'one-write-per-iteration'
-            if ok and bid:
-                s = bid[0][1][1]
-                ok = ws[0][1] == s and ws[0][2] == T.mk_sub(T.typed(calllog.call_term(bid[0]), 'u32'), I(1)) and bid[0][1][0] == p
-                role = 'new_id[s]=block_id(s)-1'
-            elif ok and pick:
-                b = pick[0][1][1]
-                ok = ws[0][1] == T.mk_sub(b, I(1)) and ws[0][2] == T.typed(calllog.call_term(pick[0]), 'u32') and pick[0][1][0] == p
-                role = 'old_id[b-1]=pick_element(b)'
-            elif ok:
-                ok = False
-            roles.add(role)
-            ctx.obligation(ok)
-            (ctx.ok if ok else ctx.violation)('C04.R2', 'C04.R2/from_partition/%s' % role, fn.path, fn.site(), {'writes': [(T.show(a)[:40], T.show(b)[:80], T.show(c)[:120]) for a, b, c in ws]}, cfg)
-        for need in ('new_id[s]=block_id(s)-1', 'old_id[b-1]=pick_element(b)'):
-            ok = need in roles
-            ctx.obligation(ok)
-            (ctx.ok if ok else ctx.violation)('C04.R2', 'C04.R2/from_partition/loop-present:%s' % need, fn.path, fn.site(), None, cfg)
-        # loop ranges: s over 0..size, b over 1..num_blocks
-        rng = []
-        for head, entry in log.entries:
-            fr = entry.frames[-1]
-            for c in fr.cells:
-                if isinstance(c.v, X.Iter) and 'range' in c.v.kind:
-                    rng.append((c.v.pos, c.v.end))
-        want1 = (I(0), T.typed(('call', PART + 'size', (p,)), 'u32'))
-        want2 = (I(1), T.typed(('call', PART + 'num_blocks', (p,)), 'u32'))
-        ok = want1 in rng and want2 in rng
+        acc = lambda q: q.endswith('Partition::index') or q.endswith('Partition::num_blocks') or q.endswith('Partition::size')
+        ctx.assumptions.add('a partition always has its block 0 (BasePartition::new creates it): the block table is not empty')
+        size = ('fld', ('fld', p, 'base'), 'size')
+        nblocks = ('len', ('fld', ('fld', p, 'base'), 'block'))
+        bhy = lambda st, goal: [le(I(1), T.typed(calllog.call_term(c), 'u32')) for c in st.calls if c[0] == PART + 'block_id'] + [le(I(1), T.typed(nblocks, 'usize')), le(T.typed(nblocks, 'usize'), I(2 ** 32 - 1))]
+        an = analyse(ctx, cfg, SM + 'from_partition', [], uninterpreted=lambda q: not acc(q), _exact_casts=[('u32', 'usize'), ('usize', 'u32')], _hyps=bhy)
+        ip, fn = an.ip, an.fn
+        nret = 0
+        for o in an.rets:
+            nret += 1
+            t = ip.to_term(o.state, o.value)
+            ok = t[0] == 'mk' and len(t[3]) == 2
+            new_id, old_id = (t[3] if ok else (None, None))
+
+            def is_map(m, lo, hi, bodyf):
+                if not (isinstance(m, tuple) and m and m[0] == 'map' and m[1][0] == 'range'):
+                    return False
+                k = m[2]
+                return (m[1][1] == lo and m[1][2] == hi and m[3] == bodyf(k))
+            ok1 = ok and is_map(new_id, I(0), size, lambda k: T.mk_sub(T.typed(('call', PART + 'block_id', (p, k)), 'u32'), I(1)))
+            ok2 = ok and is_map(old_id, I(1), nblocks, lambda k: T.typed(('call', PART + 'pick_element', (p, T.mk_add(k, I(1)))), 'u32'))
+            for okx, role in ((ok1, 'new_id[s]=block_id(s)-1-for-every-state'), (ok2, 'old_id[b-1]=pick_element(b)-for-every-block')):
+                ctx.obligation(okx)
+                (ctx.ok if okx else ctx.violation)('C04.R2', 'C04.R2/from_partition/%s' % role, fn.path, fn.site(), {'returned': T.show(t)[:500]}, cfg)
+        ok = nret == 1
         ctx.obligation(ok)
-        (ctx.ok if ok else ctx.violation)('C04.R2', 'C04.R2/from_partition/ranges-cover-all-states-and-all-blocks', fn.path, fn.site(), {'ranges': [(T.show(a), T.show(b)) for a, b in rng]}, cfg)
+        (ctx.ok if ok else ctx.violation)('C04.R2', 'C04.R2/from_partition/one-result', fn.path, fn.site(), {'leaves': nret}, cfg)
 
 
 def splitter_fields(t):
